@@ -51,6 +51,9 @@
 #![cfg_attr(not(feature = "inter-thread"), allow(dead_code))]
 #![cfg_attr(not(feature = "inter-thread"), allow(unused_variables))]
 
+#[cfg(feature = "uazu-stakker-verif")]
+use crate::verif_std as std;
+
 #[cfg(feature = "inter-thread")]
 use {slab::Slab, std::convert::TryFrom, std::mem};
 
